@@ -34,6 +34,11 @@ Theorem C06_dns_tcp_fragments_ask_for_more : forall unpack re c p s, s <> [] ->
   dns_match unpack re c true (p ++ s) = Yes -> dns_match unpack re c true p = More.
 Proof. exact dns_tcp_prefix_more. Qed.
 
+(* bytes after a complete frame are always answered No (and by No-stability stay No) *)
+Theorem C06_dns_tcp_trailing_bytes_rejected : forall unpack re c lb msg t,
+  length lb = 2%nat -> be_N lb = N.of_nat (length msg) -> t <> [] -> dns_match unpack re c true (lb ++ msg ++ t) = No.
+Proof. exact dns_tcp_trailing_no. Qed.
+
 (* non-vacuity: a stream that matches whole, its prefixes ask for more, an extension is rejected and stays rejected *)
 Definition ex_q : dnsmsg := {| d_len := 14; d_questions := [{| q_name := [x61]; q_class := Some [x49]; q_type := Some [x41] |}];
                               d_response := false; d_rcode := 0; d_zero := false |}.
@@ -54,4 +59,5 @@ Print Assumptions C06_openvpn_verdict_indep_of_lastDigest.
 Print Assumptions C06_dns_tcp_no_stable.
 Print Assumptions C06_dns_tcp_fragments_not_rejected.
 Print Assumptions C06_dns_tcp_fragments_ask_for_more.
+Print Assumptions C06_dns_tcp_trailing_bytes_rejected.
 Print Assumptions C06_ovpn_dns_nonvacuous.
